@@ -70,6 +70,25 @@ def run(ctx):
         krt = relative_permeabilities_twophase(RelPermParams(**par), sw)
         kr = {f: interp1d(krt["So"], krt[f]) for f in ("kro", "krg", "krw")}
         so2 = np.clip(so, 0, 1 - sw)
+        # the same with MOBILE water (water above its connate saturation: all three phases flow, krw > 0)
+        from bluebonnet.flow.flowproperties import relative_permeabilities
+        swm = min(0.6, par["S_wc"] + 0.25)
+        sog = np.linspace(0.0, 1 - swm, 25)
+        recs = np.array([(float(a), swm, float(1 - swm - a)) for a in sog], dtype=[("So", "f8"), ("Sw", "f8"), ("Sg", "f8")])
+        krm = relative_permeabilities(recs, RelPermParams(**par))
+        kr_mob = {f: interp1d(sog, np.asarray(krm[f], float), bounds_error=False, fill_value=(float(krm[f][0]), float(krm[f][-1]))) for f in ("kro", "krg", "krw")}
+        so_m = np.clip(so, 0, 1 - swm)
+        lam_m = np.asarray(lambda_combined_func(p, so_m, pvt, kr_mob), float)
+        ev += 1
+        if float(np.min(kr_mob["krw"](so_m))) <= 0 or not np.allclose(lam_m, doc_mobility(p, so_m, pvt, kr_mob), rtol=1e-12):
+            bad("total mobility is not the documented sum over components (mobile water)", dict(**inp, Sw_mobile=swm),
+                float(np.abs(lam_m - doc_mobility(p, so_m, pvt, kr_mob)).max()))
+        with np.errstate(all="ignore"):
+            al_m = np.asarray(alpha_multiphase(p, so_m, phi, swm, pvt, kr_mob), float)
+        cp_m = np.asarray(compressibility_combined_func(p, so_m, phi, swm, pvt), float)
+        okm = np.abs(cp_m) > 0
+        if not np.allclose(al_m[okm], doc_mobility(p, so_m, pvt, kr_mob)[okm] / cp_m[okm], rtol=1e-12):
+            bad("multiphase diffusivity is not documented total mobility divided by total compressibility (mobile water)", dict(**inp, Sw_mobile=swm), "mismatch")
         lam = np.asarray(lambda_combined_func(p, so2, pvt, kr), float)
         ev += 1
         if not np.allclose(lam, doc_mobility(p, so2, pvt, kr), rtol=1e-12):
